@@ -1,8 +1,8 @@
 # C05: canonical, validating serialisation (DESIGN 6.5)
 from symex.checklib import Case, run_check
-from symex import cstubs, stubs_big
+from symex import cstubs, stubs_big, stubs_ecdsa
 
-FUNCS = ['C:E1_read_bytes', 'C:E1_write_bytes', 'C:E2_read_bytes', 'C:E2_write_bytes', 'C:Fp_read_bytes', 'C:Fp2_read_bytes',
+FUNCS = ['(*crypto.ecdsaAlgo).rawDecodePrivateKey', '(*crypto.ecdsaAlgo).rawDecodePublicKey', '(*crypto.ecdsaAlgo).decodePublicKeyCompressed', '(*crypto.pubKeyECDSA).rawEncode', '(*crypto.pubKeyECDSA).EncodeCompressed', '(*crypto.prKeyECDSA).rawEncode', 'C:E1_read_bytes', 'C:E1_write_bytes', 'C:E2_read_bytes', 'C:E2_write_bytes', 'C:Fp_read_bytes', 'C:Fp2_read_bytes',
          'C:Fr_read_bytes', 'C:Fr_star_read_bytes', 'C:Fr_write_bytes', 'crypto.readPointE1', 'crypto.readPointE2',
          '(*crypto.blsBLS12381Algo).decodePublicKey', '(*crypto.blsBLS12381Algo).decodePrivateKey']
 
@@ -20,13 +20,24 @@ def run(tier, seed):
     # BLS signature parsing inside verification: a signature with trailing / missing bytes is not accepted
     for extra in (-1, 1, 48):
         cases.append(Case('BLS_sig_appended_%d' % extra, 'crypto', 'zzC01_appended', [extra & ((1 << 64) - 1)], opts={'setup': 'symex.setup_c:with_galg'}))
-    cases.sort(key=lambda c: -(c.args[0] in (48, 96, 32)))
+    # ECDSA decoders (both curves): private scalars, raw and compressed public keys
+    blens = set([32, 31, 30, 16, 2, 1, 0]) if thorough else set([32, 31, 1])
+    EO = {'big_len_set': blens}
+    elens = list(range(0, 101)) if thorough else [0, 1, 31, 32, 33, 34, 63, 64, 65, 66, 96]
+    for algo in (0, 1):
+        for n in elens:
+            cases.append(Case('ECDSA_privkey_a%d_%d' % (algo, n), 'crypto', 'zzC05_ecdsa_private', [algo, n], opts=EO))
+            cases.append(Case('ECDSA_pubkey_a%d_%d' % (algo, n), 'crypto', 'zzC05_ecdsa_public', [algo, n, False], opts=EO))
+            cases.append(Case('ECDSA_pubkey_compressed_a%d_%d' % (algo, n), 'crypto', 'zzC05_ecdsa_public', [algo, n, True], opts=EO))
+    cases.sort(key=lambda c: -(c.args[0] in (48, 96, 32) or (len(c.args) > 1 and c.args[1] in (32, 33, 64))))
     return run_check('C05', cases, tier, seed, setup='symex.setup_c:with_c',
         functions=FUNCS,
         bounds={'content': 'every byte of the input symbolic (all 2^384 / 2^768 / 2^256 strings of the exact lengths at once)',
                 'lengths': 'other lengths %s' % ('0..200' if thorough else str(lens)),
-                'outside': 'BLST field multiplication / square root / subgroup check (uninterpreted, see trusted base); ECDSA decoders are covered separately'},
+                'ecdsa': 'both curves; all byte strings of lengths %s as private key, raw public key and compressed public key; minimal byte lengths of big integers explored: %s' % ('0..100' if thorough else str(elens), sorted(blens)),
+                'outside': 'BLST field multiplication / square root / subgroup check (uninterpreted, see trusted base); P-256 / secp256k1 on-curve test, decompression and public-key derivation (uninterpreted, with the contract listed in the trusted base)'},
         assumptions=['neither E1 nor E2 has a point with y = 0 (odd group orders); square roots returned by sqrt_fp/sqrt_fp2 are reduced',
-                     'sign of -y is the opposite of the sign of y for y != 0 (field fact, added as axiom instances)'],
-        trusted=cstubs.TRUSTED_A + stubs_big.TRUSTED,
-        explanation='symbolic execution of the Go decoders through the cgo boundary into the LLVM IR of the repository C glue (read/write of Fr, Fp, Fp2, E1, E2) on field-primitive contracts; assertions: accept => re-encode equals input, accepted scalar set = [1, r-1] against a schoolbook reference, identity flag iff infinity encoding, rejection class')
+                     'sign of -y is the opposite of the sign of y for y != 0 (field fact, added as axiom instances)',
+                     'ECDSA curves: decompress(parity(y), x) = y for reduced on-curve (x, y) (field fact, instantiated for the on-curve terms of the path); reference on-curve predicate natively = the curve equation computed with math/big'],
+        trusted=cstubs.TRUSTED_A + stubs_big.TRUSTED + stubs_ecdsa.TRUSTED,
+        explanation='symbolic execution of the Go decoders through the cgo boundary into the LLVM IR of the repository C glue (read/write of Fr, Fp, Fp2, E1, E2) on field-primitive contracts; assertions: accept => re-encode equals input, accepted scalar set = [1, r-1] against a schoolbook reference, identity flag iff infinity encoding, rejection class; ECDSA decoders on a big.Int model: accepted private keys = 32 bytes in [1, n-1], accepted raw public keys = 64 bytes, reduced, on curve, compressed = 33 bytes with prefix 02/03 and reduced x, re-encoding equals input, compressed/raw forms decode to Equal keys')
